@@ -395,3 +395,155 @@ Proof.
     + unfold norm_x. cbn [x_t t_checks]. exact (df_checks x D).
     + unfold norm_x. cbn [x_t t_name t_fks]. rewrite Efk. exact (df_fk_stable x D).
 Qed.
+
+(** ** schemas *)
+Lemma schema_diff_pairs name (l1 l2 : list table) :
+  NoDup (map t_name l1) ->
+  Forall2 (fun a b => t_name b = t_name a /\ table_diff sqlite_driver no_skip a b = Some []) l1 l2 ->
+  SchemaDiff sqlite_driver no_skip (mkSchema name l1) (mkSchema name l2) = Some [].
+Proof.
+  intros ND F. destruct (combine_some_fst _ _ _ F) as (C1 & C2 & C3).
+  destruct (schema_diff_exact sqlite_driver no_skip (mkSchema name l1) (mkSchema name l2)
+              (combine l1 (map Some l2)) []) as (adds' & P & E).
+  - reflexivity.
+  - symmetry. exact C1.
+  - split.
+    + rewrite C1, app_nil_r. exact ND.
+    + intros c c' Hin. destruct (C3 c (Some c') Hin) as (c'' & Ec & (Hk & _) & _). inversion Ec; subst. exact Hk.
+  - cbn [s_tables]. rewrite C2, app_nil_r. apply Permutation_refl.
+  - intros t t' Hin. destruct (C3 t (Some t') Hin) as (c'' & Ec & (_ & Hd) & _). inversion Ec; subst. rewrite Hd. discriminate.
+  - apply Permutation_nil in P. subst adds'. rewrite E.
+    assert (tbl_expected sqlite_driver no_skip (combine l1 (map Some l2)) = []) as ->.
+    { unfold tbl_expected. apply flat_map_nil. intros [c o] Hin. destruct (C3 c o Hin) as (c' & -> & (_ & Hd) & _).
+      cbn [snd fst]. rewrite Hd. reflexivity. }
+    reflexivity.
+Qed.
+
+(** C03_hcl: for every well-formed, diffable schema the HCL round trip succeeds, and the SQLite
+    differ finds no change between the result and the original, in both directions. *)
+Theorem hcl_roundtrip_diff_empty name xs :
+  schema_wf xs -> Forall diffable xs ->
+  exists ys, hcl_roundtrip xs = ROk ys /\
+    SchemaDiff sqlite_driver no_skip (schema_of name ys) (schema_of name xs) = Some [] /\
+    SchemaDiff sqlite_driver no_skip (schema_of name xs) (schema_of name ys) = Some [].
+Proof.
+  intros WF DF. exists (map norm_x xs). split; [exact (hcl_roundtrip_norm xs WF)|].
+  destruct WF as [_ ND]. unfold schema_of. rewrite map_map.
+  assert (map t_name (map x_t xs) = map x_name xs) as Hn1 by (rewrite map_map; reflexivity).
+  assert (map t_name (map (fun x => x_t (norm_x x)) xs) = map x_name xs) as Hn2 by (rewrite map_map; reflexivity).
+  split; apply schema_diff_pairs.
+  - rewrite Hn2. exact ND.
+  - clear -DF. induction DF as [|x l Hx H IH]; simpl; constructor; [|exact IH].
+    split; [reflexivity|exact (proj1 (table_diff_norm x Hx))].
+  - rewrite Hn1. exact ND.
+  - clear -DF. induction DF as [|x l Hx H IH]; simpl; constructor; [|exact IH].
+    split; [reflexivity|exact (proj2 (table_diff_norm x Hx))].
+Qed.
+
+(** ** what the premises exclude, and why: defaults the round trip changes for the differ *)
+Definition col_of (cls : N) (T v : str) : column := mkColumn [97] cls T true (Some (DLit v)) None None.
+(** boolean TRUE (upper case), the string 'a' with its quotes, +5, 007: all accepted by the
+    conversion ([col_wf]), all reported as changed by the differ afterwards *)
+Lemma default_refuted :
+  Forall (fun c => col_wf c /\ sqlite_column_change (mkTable [] false false [] None [] [] []) (norm_col c) c <> Some 0)
+    [col_of 7 [98;111;111;108] [84;82;85;69];
+     col_of 3 [116;101;120;116] [39;39;39;97;39;39;39];
+     col_of 2 [105;110;116] [43;53];
+     col_of 2 [105;110;116] [48;48;55]].
+Proof.
+  repeat constructor; try (eexists; vm_compute; reflexivity); vm_compute; discriminate.
+Qed.
+
+(** ** a witness of the premises (non-vacuity) *)
+Require Import Coq.Strings.String Coq.Strings.Ascii.
+Import List ListNotations.
+Definition Bs (s : string) : str := List.map N_of_ascii (list_ascii_of_string s).
+
+Definition w_p : xtable :=
+  mkX (mkTable (Bs "p") false false
+         [mkColumn (Bs "id") 2 (Bs "integer") false None None None]
+         (Some (mkIndex (Bs "PRIMARY") true [mkPart 1 false (Some (Bs "id")) None] None None None))
+         [] [] []) [Bs "id"].
+Definition w_c : xtable :=
+  mkX (mkTable (Bs "c") false true
+         [mkColumn (Bs "a") 2 (Bs "int") false (Some (DLit (Bs "5"))) None None;
+          mkColumn (Bs "b") 3 (Bs "text") true (Some (DLit (Bs "'it''s'"))) None None;
+          mkColumn (Bs "d") 8 (Bs "datetime") true (Some (DRaw (Bs "CURRENT_TIMESTAMP"))) None None;
+          mkColumn (Bs "g") 2 (Bs "int") true None (Some (Bs "(a + 1)", Bs "STORED")) None]
+         None
+         [mkIndex (Bs "i1") true [mkPart 1 true (Some (Bs "a")) None; mkPart 2 false None (Some (Bs "(a + 1)"))]
+                  (Some (Bs "a > 0")) None (Some (Bs "c"))]
+         [mkFk (Bs "fk1") [Bs "a"] (Bs "p") [Bs "id"] (Bs "NO ACTION") (Bs "CASCADE")]
+         [mkCheck (Bs "ck") (Bs "(a > 0)")]) [].
+Definition w_xs : xschema := [w_p; w_c].
+
+Lemma w_xs_wf : schema_wf w_xs.
+Proof.
+  split.
+  - constructor; [|constructor; [|constructor]].
+    + (* p *)
+      split; [|split; [|split]].
+      * constructor; [exact I|constructor].
+      * constructor; [|constructor]. exists (Bs "id"). split; reflexivity.
+      * constructor.
+      * constructor.
+    + (* c *)
+      split; [|split; [|split]].
+      * constructor; [eexists; vm_compute; reflexivity|].
+        constructor; [eexists; vm_compute; reflexivity|].
+        constructor; [eexists; vm_compute; reflexivity|].
+        constructor; [exact I|constructor].
+      * exact I.
+      * constructor; [|constructor]. split; [discriminate|].
+        constructor; [vm_compute; reflexivity|]. constructor; [exact I|constructor].
+      * constructor; [|constructor]. split; [discriminate|]. split; [reflexivity|]. split; [vm_compute; reflexivity|].
+        vm_compute. eexists. split; reflexivity.
+  - vm_compute. constructor; [intros [H|[]]; discriminate|]. constructor; [intros []|constructor].
+Qed.
+
+Ltac nodup_tac := vm_compute; repeat (constructor; [simpl; intuition discriminate|]); constructor.
+Lemma w_p_diffable : diffable w_p.
+Proof.
+  constructor.
+  - constructor.
+    + nodup_tac.
+    + nodup_tac.
+    + intros i [].
+    + intros pk E. vm_compute in E. injection E as <-. constructor; [|constructor]. left. discriminate.
+    + nodup_tac.
+  - constructor; [|constructor]. split; [discriminate|exact I].
+  - constructor.
+  - intros i [].
+  - vm_compute. split; [|split; [exact I|split; reflexivity]].
+    constructor; [|constructor]. split; [reflexivity|]. split; [reflexivity|discriminate].
+  - constructor.
+  - intros f1 f2 [].
+  - intros c c' [].
+Qed.
+Lemma w_c_diffable : diffable w_c.
+Proof.
+  constructor.
+  - constructor.
+    + nodup_tac.
+    + nodup_tac.
+    + intros i [<-|[]]. constructor; [left; discriminate|]. constructor; [right; discriminate|constructor].
+    + intros pk E. discriminate.
+    + nodup_tac.
+  - constructor; [split; [discriminate|vm_compute; reflexivity]|].
+    constructor; [split; [discriminate|vm_compute; reflexivity]|].
+    constructor; [split; [discriminate|vm_compute; reflexivity]|].
+    constructor; [split; [discriminate|exact I]|constructor].
+  - constructor; [|constructor]. split; [|split; [|split]].
+    + constructor; [exact I|]. constructor; [exact I|constructor].
+    + split; [reflexivity|exact I].
+    + discriminate.
+    + reflexivity.
+  - intros i [<-|[]]. vm_compute. reflexivity.
+  - exact I.
+  - constructor; [reflexivity|constructor].
+  - intros f1 f2 [<-|[]] [<-|[]] _. reflexivity.
+  - intros c c' [<-|[]] [<-|[]] _ _. reflexivity.
+Qed.
+
+Lemma w_xs_diffable : Forall diffable w_xs.
+Proof. constructor; [exact w_p_diffable|constructor; [exact w_c_diffable|constructor]]. Qed.
